@@ -77,17 +77,29 @@ def call_request(spec, truth, names, field, volfrac, limit):
     return {"op": "pestle_call", "names": list(names), "field": field, "volfrac": bool(volfrac), "limit": limit, "levels": levels}
 
 
-def run_case(ctx, rep, spec, field, volfrac, limit, model, path=None, truth=None, cli=False, start=None, pck=None):
+def run_case(ctx, rep, spec, field, volfrac, limit, model, path=None, truth=None, cli=False, start=None, pck=None, previous=None, finish=None):
     from amr_kitchen import PlotfileCooker
     from amr_kitchen.pestle.pestle import volume_integral
     if path is None:
         path = ctx.newdir("c09_")
+        if previous is not None:
+            # another plotfile (other refined region) lived at this very path and was integrated in this process before
+            import shutil
+            plotgen.materialize(previous, path)
+            try:
+                with alarm(120), quiet(), pools.controlled():
+                    volume_integral(PlotfileCooker(path, limit_level=limit), field, limit_level=limit, use_volfrac=volfrac)
+            except BaseException as e:
+                if isinstance(e, KeyboardInterrupt): raise
+            shutil.rmtree(path)
         truth = plotgen.materialize(spec, path)
     names = dedup_names(spec["fields"])
     nlev = len(spec["levels"])
     L = nlev - 1 if limit is None else limit
     sizes = {hi[d] - lo[d] + 1 for boxes in spec["levels"] for lo, hi in boxes for d in range(3)}
-    case = {"spec": spec, "field": field, "volfrac": volfrac, "limit": limit, "cli": cli}
+    case = {"spec": spec, "field": field, "volfrac": volfrac, "limit": limit, "cli": cli, "finish": finish}
+    if previous is not None:
+        case["previous"] = previous; rep.count("path-rewritten-with-another-refined-region-then-integrated-again")
     if pck is not None:
         # one reader object reused for a sequence of calls: the earlier calls are part of the case
         pck[1].append([field, volfrac, limit])
@@ -102,7 +114,7 @@ def run_case(ctx, rep, spec, field, volfrac, limit, model, path=None, truth=None
     kvol = names.get("volFrac") if volfrac else None
     want = exact_integral(spec, truth, k, kvol, L)
     try:
-        with alarm(180), quiet() as (out, err), pools.controlled(start=start):
+        with alarm(180), quiet() as (out, err), pools.controlled(start=start, finish={"reversed": pools.order_reversed, "rot1": pools.order_rot(1)}.get(finish)):
             if cli:
                 import amr_kitchen.pestle.cli as pcli
                 argv = ["pestle", "-v", field] + (["-l", str(limit)] if limit is not None else []) + (["-vf"] if volfrac else []) + [path]
@@ -275,7 +287,7 @@ def run(ctx, rep, model=True):
             combos.append((["density", "one"][L % 2], L % 2 == 1, L))
         for j, (f, vf, lim) in enumerate(combos):
             run_case(ctx, rep, spec, f, vf, lim, model, path, truth, cli=(j in (1, 3, 4) and i % 2 == 0),
-                     start=[None, pools.order_reversed][j % 2])
+                     start=[None, pools.order_reversed][j % 2], finish=[None, "reversed", "rot1"][(i + j) % 3])
         if nlev >= 2 and i % 2 == 0:
             # one reader object for a sequence of calls with different limits and fields
             pck = [None, []]
@@ -290,6 +302,17 @@ def run(ctx, rep, model=True):
             truth2 = plotgen.materialize(spec2, path2)
             for j, (f, vf, lim) in enumerate([("density", False, None), ("density", True, nlev - 1), ("one", False, None)]):
                 run_case(ctx, rep, spec2, f, vf, lim, model, path2, truth2, cli=(j == 2 and i % 4 == 1))
+        if nlev >= 2 and i % 2 == 0:
+            # the plotfile is rewritten at the same path with another refined region and integrated again in this process
+            import shutil
+            for _ in range(20):
+                spec2 = make_spec(ctx.rng, i)
+                if spec2["levels"] != spec["levels"] and len(spec2["levels"]) == nlev:
+                    break
+            spec2["data"] = {"mode": "pestle", "seed": ctx.rng.randrange(1 << 30)}
+            shutil.rmtree(path); truth2 = plotgen.materialize(spec2, path)
+            run_case(ctx, rep, spec2, "density", False, None, model, path, truth2, previous=spec)
+            run_case(ctx, rep, spec2, "one", False, nlev - 1, model, path, truth2, previous=spec)
         if len(rep.violations) >= 10:
             return
 
@@ -309,4 +332,4 @@ def replay(ctx, rep, obj, model=True):
             run_case(ctx, rep, c["spec"], f, vf, lim, False, path, truth, pck=pck)
         run_case(ctx, rep, c["spec"], c["field"], c["volfrac"], c["limit"], model, path, truth, pck=pck)
         return
-    run_case(ctx, rep, c["spec"], c["field"], c["volfrac"], c["limit"], model, cli=c.get("cli", False))
+    run_case(ctx, rep, c["spec"], c["field"], c["volfrac"], c["limit"], model, cli=c.get("cli", False), previous=c.get("previous"), finish=c.get("finish"))
